@@ -21,6 +21,8 @@ type wEnumVal struct {
 type wEnum struct {
 	Name   string     `json:"name"`
 	Values []wEnumVal `json:"values"`
+	// Alias: option allow_alias = true (two values may share a number). Harness-only.
+	Alias bool `json:"alias,omitempty"`
 }
 type wField struct {
 	Name           string `json:"name"`
@@ -34,6 +36,8 @@ type wField struct {
 	// P3Explicit: the descriptor spells `proto3_optional: false` out (valid; same meaning as absent).
 	// Harness-only: the Lean world ignores it.
 	P3Explicit bool `json:"p3explicit,omitempty"`
+	// Packed: 0 absent, 1 `[packed = true]`, 2 `[packed = false]` spelled out (repeated scalars and enums). Harness-only.
+	Packed int `json:"packed,omitempty"`
 }
 type wMethod struct {
 	Name   string `json:"name"`
@@ -144,12 +148,21 @@ func (b *built) field(f wField, r ref) *descriptor.FieldDescriptorProto {
 	if f.Extendee != "" {
 		fd.Extendee = proto.String(f.Extendee)
 	}
+	switch f.Packed {
+	case 1:
+		fd.Options = &descriptor.FieldOptions{Packed: proto.Bool(true)}
+	case 2:
+		fd.Options = &descriptor.FieldOptions{Packed: proto.Bool(false)}
+	}
 	b.refOf[fd] = r
 	return fd
 }
 
 func (b *built) enum(e wEnum, r ref) *descriptor.EnumDescriptorProto {
 	ed := &descriptor.EnumDescriptorProto{Name: proto.String(e.Name)}
+	if e.Alias {
+		ed.Options = &descriptor.EnumOptions{AllowAlias: proto.Bool(true)}
+	}
 	for i, v := range e.Values {
 		vd := &descriptor.EnumValueDescriptorProto{Name: proto.String(v.Name), Number: proto.Int32(v.Number)}
 		b.refOf[vd] = mkRef(r.File, r.Path, 2, i)
@@ -303,7 +316,7 @@ var goNamePools = map[string][]string{
 	"M": {"Item", "item", "_Item", "Item_", "I_tem", "item2", "Item2D", "ITEM", "i", "X_y", "Foo", "Bar", "foo_bar", "Get", "M_Foo", "Foo_", "text_block", "sha256sum", "s3bucket", "v1beta", "z9a", "a0z", "Z0a_9z"},
 	"E": {"Kind", "kind", "_kind", "Kind_", "K_ind", "KIND", "Foo", "color3d", "x2y", "a9z", "z0_a"},
 	"V": {"UNKNOWN", "first", "_second", "Third_", "o_ther", "x", "V1", "v_1", "z9z", "a_0a"},
-	"f": {"foo", "get_foo", "reset", "string", "proto_message", "descriptor", "marshal", "unmarshal", "extension_map", "extension_range_array", "foo_", "_foo", "foo__bar",
+	"f": {"proto", "foo", "get_foo", "reset", "string", "proto_message", "descriptor", "marshal", "unmarshal", "extension_map", "extension_range_array", "foo_", "_foo", "foo__bar",
 		"Foo", "fooBar", "foo1", "f_1", "get_reset", "get_get_foo", "x_y_z", "bar", "get_bar", "Reset", "reset_", "get", "get_", "item", "kind",
 		"sha256sum", "vector3d_point", "s3bucket", "ipv4_address", "x86", "a1b2c3", "utf8_2go",
 		"x0y", "x9y", "base10a", "n9", "a", "z", "a_z", "z_a", "zz_9aa", "_a0", "_9z", "az_za", "q7_z0a"},
@@ -314,8 +327,8 @@ var goNamePools = map[string][]string{
 }
 
 var namePools = map[string][]string{
-	"M": {"Item", "Tag", "Node", "Info", "Data"}, "E": {"Kind", "State", "Color"}, "V": {"UNKNOWN", "FIRST", "SECOND", "THIRD", "OTHER"},
-	"f": {"id", "name", "value", "item", "tag", "next", "data"}, "of": {"a", "b", "c", "d", "e"}, "o": {"choice", "kind_of", "which"},
+	"M": {"Item", "Tag", "Node", "Info", "Data", "proto"}, "E": {"Kind", "State", "Color"}, "V": {"UNKNOWN", "FIRST", "SECOND", "THIRD", "OTHER", "proto"},
+	"f": {"id", "name", "value", "item", "tag", "next", "data", "proto"}, "of": {"a", "b", "c", "d", "e"}, "o": {"choice", "kind_of", "which"},
 	"mp": {"labels", "index", "attrs"}, "x": {"tag", "ext", "note"}, "S": {"Api", "Admin"}, "Rpc": {"Get", "Put", "List"},
 }
 
@@ -403,6 +416,10 @@ func genWorld(r *rand.Rand, o genOpts) wWorld {
 			f.Name = fmt.Sprintf(".hidden/f%d.proto", fi)
 		case 4:
 			f.Name = fmt.Sprintf(".f%d.proto", fi)
+		}
+		if r.Intn(12) == 0 { // ".proto" elsewhere than at the end
+			f.Name = []string{"acme.protos/api/f%d.proto", "f%d.proto3.proto", "x.proto/f%d.proto", "f%d.v1.proto"}[r.Intn(4)]
+			f.Name = fmt.Sprintf(f.Name, fi)
 		}
 		proto3 := r.Intn(2) == 0
 		switch {
@@ -494,11 +511,14 @@ func genWorld(r *rand.Rand, o genOpts) wWorld {
 			pool := []string{"example.com/gen/alpha", "example.com/gen/beta;betapkg", "example.com/x/go-pkg", "example.com/x/v1.2", "example.com/x/type",
 				"example.com/x/9lives", "bare" + strings.ReplaceAll(dir, ".", "root"), "example.com/gen/alpha", "example.com/y/func;select", "example.com/y/Mixed_Case",
 				"example.com/z/a.b-c;d-e.f", "only/one", "example.com/q/my--pkg", "example.com/q/v1.-beta;snake__case", "example.com/q/a.-_b", "example.com/a/types", "example.com/b/types", "example.com/a/types", "example.com/b/types",
-				"example.com/x/mapping", "example.com/m/maps", "example.com/m/v2;mapper", "example.com/q/foo\u2013bar", "example.com/q/a\u00b7b;c\U0001F642d", "dash\u2014" + strings.ReplaceAll(dir, ".", "root")}
+				"example.com/acme/billing/v2", "example.com/x/y/v3", "example.com/x/mapping", "example.com/m/maps", "example.com/m/v2;mapper", "example.com/q/foo\u2013bar", "example.com/q/a\u00b7b;c\U0001F642d", "dash\u2014" + strings.ReplaceAll(dir, ".", "root")}
 			fp.GoPackage = pool[r.Intn(len(pool))]
 		}
-		if o.locs {
+		if o.locs && (fi == 0 || r.Intn(5) > 0) { // some files carry no source info at all
 			genLocs(r, fp)
+			for k := range fp.Locs {
+				fp.Locs[k].Tag += fi * 100000 // tags are unique in the request, not only in the file
+			}
 		}
 	}
 	// targets
@@ -542,6 +562,10 @@ func (wg *worldGen) genEnum(scope string, fi int, proto3 bool) wEnum {
 			}
 		}
 		e.Values = append(e.Values, wEnumVal{wg.fresh("V", scope), num})
+	}
+	if nv >= 2 && wg.r.Intn(5) == 0 { // aliases: a later value repeats an earlier number
+		e.Alias = true
+		e.Values[nv-1].Number = e.Values[wg.r.Intn(nv-1)].Number
 	}
 	wg.enums = append(wg.enums, declEnum{fqnJoin(scope, e.Name), fi, proto3, !sparse})
 	return e
@@ -639,6 +663,9 @@ func (wg *worldGen) fillMsg(m *wMsg, scope string, fi int, proto3 bool, vis map[
 			f.Label = 2
 		}
 		wg.typed(&f, fi, vis, proto3)
+		if f.Label == 3 && f.Type != tMessage && f.Type != 9 && f.Type != 12 {
+			f.Packed = []int{0, 0, 1, 2}[wg.r.Intn(4)]
+		}
 		if proto3 && f.Label == 1 && wg.r.Intn(4) == 0 {
 			f.Proto3Optional = true
 			synthetic = append(synthetic, len(m.Head.Fields))
@@ -700,7 +727,12 @@ func (wg *worldGen) fillMsg(m *wMsg, scope string, fi int, proto3 bool, vis map[
 	// synthetic oneofs after the real ones, one per proto3-optional field
 	for _, idx := range synthetic {
 		oi := len(m.Head.Oneofs)
-		m.Head.Oneofs = append(m.Head.Oneofs, "_"+m.Head.Fields[idx].Name)
+		on := "_" + m.Head.Fields[idx].Name
+		if wg.r.Intn(4) == 0 && !wg.used[fqn+"\x00X"+on] { // what protoc calls it when `_name` is taken
+			on = "X" + on
+		}
+		wg.used[fqn+"\x00"+on] = true
+		m.Head.Oneofs = append(m.Head.Oneofs, on)
 		m.Head.Fields[idx].OneofIndex = &oi
 	}
 	if !proto3 {
@@ -723,6 +755,9 @@ func (wg *worldGen) genExt(scope string, fi int, proto3 bool, vis map[int]bool) 
 		x.Label = 3
 	}
 	wg.typed(&x, fi, vis, proto3)
+	if x.Label == 3 && x.Type != tMessage && x.Type != 9 && x.Type != 12 {
+		x.Packed = []int{0, 0, 1, 2}[wg.r.Intn(4)]
+	}
 	return x, true
 }
 
